@@ -464,6 +464,15 @@ def build(tier):  # noqa: F811
     O = _build0(tier)
     from . import miner_cron
     O += miner_cron.build_for('C13', tier)
+    # the beneficiary's term is consumed by withdrawals: the quota booked must be what was actually paid (a depleted term
+    # lets the owner replace the beneficiary without its approval); obligation shared with C14
+    from . import C14
+    from .miner_common import miner_scenario
+    for n in ([0] if tier == 'quick' else [0, 1]):
+        O.append(Obligation('miner.withdraw_balance[vesting entries=%d]' % n, C14.run_withdraw(n), C14.props_withdraw,
+                            scenario=miner_scenario('WithdrawBalance', lambda E, res, m: {'amount_requested': str(ev(m, fget(E, res.ctx.env['params'], 0, TOKEN).v))}),
+                            descr='withdrawal: only owner / beneficiary, paid to the beneficiary, quota consumption recorded = amount paid, term limits and all other control fields untouched',
+                            bounds='%d vesting entries; arbitrary MinerInfo / term; one call' % n, max_paths=100000))
     for o in O:
         for k, f in _SCN.items():
             if o.name.startswith(k):
